@@ -472,6 +472,39 @@ fn check_lookups(rep: &mut RunReport, bytes: &[u8], want: &ModelShard, plan: &Pl
     if res.is_err() || nf != want.files.len() || nx != want.xorbs.len() {
         rep.violate("C09.e", "stream-walker", format!("process_shard_stream: {:?}, {nf} files / {nx} xorbs, model {} / {}", res.err().map(|e| e.to_string()), want.files.len(), want.xorbs.len()));
     }
+    // the walker with only one of the two callbacks: the other section is passed over, the listing must be the same
+    type FileCb = fn(mdb_shard::file_structs::MDBFileInfoView) -> mdb_shard::error::Result<()>;
+    type CasCb = fn(mdb_shard::cas_structs::MDBCASInfoView) -> mdb_shard::error::Result<()>;
+    let mut xs: Vec<(H, usize)> = Vec::new();
+    let mut sr = ShortReader::new(bytes, plan.reader_seed ^ 4, plan.reader_mode.max(1));
+    let res = mdb_shard::streaming_shard::process_shard_stream(
+        &mut sr,
+        None::<FileCb>,
+        Some(|c: mdb_shard::cas_structs::MDBCASInfoView| {
+            xs.push((h_of(&c.cas_hash()), c.num_entries()));
+            Ok(())
+        }),
+    );
+    let want_xs: Vec<(H, usize)> = want.xorbs.values().map(|x| (x.hash, x.chunks.len())).collect();
+    xs.sort();
+    if res.is_err() || xs != want_xs {
+        rep.violate("C09.e", "stream-walker-xorbs-only", format!("process_shard_stream with only a xorb callback: {:?}, listed {} xorbs, model {}", res.err().map(|e| e.to_string()), xs.len(), want_xs.len()));
+    }
+    let mut fs: Vec<(H, usize)> = Vec::new();
+    let mut sr = ShortReader::new(bytes, plan.reader_seed ^ 5, plan.reader_mode.max(1));
+    let res = mdb_shard::streaming_shard::process_shard_stream(
+        &mut sr,
+        Some(|f: mdb_shard::file_structs::MDBFileInfoView| {
+            fs.push((h_of(&f.file_hash()), f.num_entries()));
+            Ok(())
+        }),
+        None::<CasCb>,
+    );
+    let want_fs: Vec<(H, usize)> = want.files.values().map(|f| (f.hash, f.segments.len())).collect();
+    fs.sort();
+    if res.is_err() || fs != want_fs {
+        rep.violate("C09.e", "stream-walker-files-only", format!("process_shard_stream with only a file callback: {:?}, listed {} files, model {}", res.err().map(|e| e.to_string()), fs.len(), want_fs.len()));
+    }
 }
 
 // ------------------------------------------------------------------------------------------------
@@ -1713,6 +1746,12 @@ impl Engine for ShardEngine {
     fn chunk_env(&self, seed: u64, chunk: u64, focus: &str, _tier: Tier) -> Vec<(String, String)> {
         // per-process configuration of the file-level deduper (mode "deduper" of C05): small xorb limits make xorb
         // cuts land inside files and batches; the fragmentation limits decide which dedup answers are used
+        if focus == "C10" && chunk % 4 != 0 {
+            // the cap of the managers' in-memory chunk index (a designed exception to dedup completeness, C11): set
+            // operations and consolidation must not depend on it
+            let mut rng = Rng::stream(seed, chunk, "shard-config");
+            return vec![("HF_XET_CHUNK_INDEX_TABLE_MAX_SIZE".to_string(), rng.pick(&[4usize, 16, 64, 500]).to_string())];
+        }
         if focus != "C05" || chunk % 4 == 0 {
             return Vec::new();
         }
